@@ -88,6 +88,23 @@ func genC04(rng *rand.Rand, n int, emit func(Case), dist map[string]int) {
 					return err
 				}
 			}
+			if d.kind == 0 && rng.Intn(8) == 0 {
+				// the same pass-through layer written as a net/http middleware and adapted with echo.WrapMiddleware
+				std := echo.WrapMiddleware(func(next http.Handler) http.Handler {
+					return http.HandlerFunc(func(w http.ResponseWriter, r *http.Request) {
+						trace = append(trace, L(I(0), I(id)))
+						next.ServeHTTP(w, r)
+					})
+				})
+				f = func(next echo.HandlerFunc) echo.HandlerFunc {
+					inner := std(next)
+					return func(c echo.Context) error {
+						err := inner(c)
+						trace = append(trace, L(I(1), I(id), I(codeOf(err))))
+						return err
+					}
+				}
+			}
 			sx := L(I(id), I(d.kind), S(d.arg))
 			if d.kind == 2 {
 				sx = L(I(id), I(2), I(d.code))
